@@ -44,6 +44,9 @@ var params = map[string]int64{}
 // fixedVals, when non-nil, makes every nondet a constant (missing = 0).
 var fixedVals map[string]int64
 
+// lemmasOff disables zzLemma (second pass when a helper lemma was not proved).
+var lemmasOff bool
+
 func (e *Engine) intrinsic(st *State, fn *ssa.Function, name string, args []Value, caller *Frame, site ssa.Instruction) (Value, bool, *State) {
 	short := fn.Name()
 	if strings.HasPrefix(short, "zz") && fn.Pkg != nil {
@@ -90,6 +93,19 @@ func (e *Engine) intrinsic(st *State, fn *ssa.Function, name string, args []Valu
 		case "zzAssert":
 			c := args[0].(*Term)
 			e.addQuery("assert", concStr(args[1]), And(st.g, Not(c)), site)
+			st.g = And(st.g, c)
+			if st.g.IsFalse() {
+				return nil, true, nil
+			}
+			return nil, true, st
+		case "zzLemma":
+			// helper lemma: proved as its own query, then assumed. If any lemma of an
+			// instance is not proved the driver re-runs the instance with lemmas off.
+			if lemmasOff {
+				return nil, true, st
+			}
+			c := args[0].(*Term)
+			e.addQuery("lemma", concStr(args[1]), And(st.g, Not(c)), site)
 			st.g = And(st.g, c)
 			if st.g.IsFalse() {
 				return nil, true, nil
